@@ -47,7 +47,9 @@ static cll::opt<Algo> algo("algo", cll::desc("Choose an algorithm:"),
                            cll::init(Async));
 
 struct LNode {
-  PRTy value;
+  //! atomic: a node can be in the worklist twice and be processed by two
+  //! threads at once
+  std::atomic<PRTy> value;
   std::atomic<PRTy> residual;
 
   void init() {
@@ -76,7 +78,7 @@ void asyncPageRank(Graph& graph) {
 
         if (sdata.residual > tolerance) {
           PRTy oldResidual = sdata.residual.exchange(0.0);
-          sdata.value += oldResidual;
+          atomicAdd(sdata.value, oldResidual);
           int src_nout = std::distance(graph.edge_begin(src, flag),
                                        graph.edge_end(src, flag));
           if (src_nout > 0) {
@@ -127,7 +129,7 @@ void syncPageRank(Graph& graph) {
 
           if (sdata.residual > tolerance) {
             PRTy oldResidual = sdata.residual;
-            sdata.value += oldResidual;
+            atomicAdd(sdata.value, oldResidual);
             sdata.residual = 0.0;
 
             int src_nout = std::distance(graph.edge_begin(src, flag),
